@@ -605,7 +605,7 @@ func (sm *Sim) anyBox() *Box {
 	return sm.boxes[l[sm.rng.Intn(len(l))]]
 }
 
-var namePool = []string{"INBOX", "Work", "Work/sub", "Work/sub/deep", "Archive", "Archive/2024", "a b", "Entwürfe", "x&y", "Trash", "lists/go-imap", "lists/other"}
+var namePool = []string{"INBOX", "Work", "Work/sub", "Work/sub/deep", "Archive", "Archive/2024", "a b", "Entwürfe", "x&y", "Trash", "lists/go-imap", "lists/other", "Workshop", "Workshop/notes", "Archive2"}
 
 func normName(n string) string {
 	if strings.EqualFold(n, "INBOX") {
@@ -896,7 +896,7 @@ func listMatch(name, ref, pat string) bool {
 	return strings.HasPrefix(name, prefix) && wild(name[len(prefix):], p)
 }
 
-var patPool = []string{"*", "%", "INBOX", "inbox", "Work/%", "Work/*", "W*", "%/%", "*/sub", "*b", "Archive*", "%/sub/%", "lists/%", "/Work", "a b", "Entw*", "x&y", "nomatch", "*/*/*"}
+var patPool = []string{"*", "%", "INBOX", "inbox", "Work/%", "Work/*", "W*", "%/%", "*/sub", "*b", "Archive*", "%/sub/%", "lists/%", "/Work", "a b", "Entw*", "x&y", "nomatch", "*/*/*", "Work%", "Archive%", "%%", "Archive%/%", "lists%go-imap", "Work%/sub", "%shop", "Work%sub"}
 var refPool = []string{"", "", "", "Work", "Work/", "lists", "Archive/", "nomatch"}
 
 func (sm *Sim) doList(s *Sess) {
